@@ -464,6 +464,82 @@ func verifGenInputs(rnd func(int) int, dir string, round int, names []string) ([
 	return args, meas
 }
 
+// verifZeroGeomean: columns whose geometric mean does not exist (a centre of zero).
+// The summary row of the CSV rendering may use only the label, summary and "vs base"
+// positions of each column, and must show the same ratios as the text rendering.
+func verifZeroGeomean(dir string, bad func(string, ...any)) int {
+	n := 0
+	scenarios := [][2]string{
+		{"BenchmarkA 1 0 ns/op\nBenchmarkB 1 10 ns/op\n", "BenchmarkA 1 0 ns/op\nBenchmarkB 1 20 ns/op\n"},
+		{"BenchmarkA 1 5 ns/op\nBenchmarkB 1 10 ns/op\n", "BenchmarkA 1 0 ns/op\nBenchmarkB 1 20 ns/op\n"},
+		{"BenchmarkA 1 0 ns/op\nBenchmarkB 1 10 ns/op\n", "BenchmarkA 1 5 ns/op\nBenchmarkB 1 20 ns/op\n"},
+		{"BenchmarkA 1 5 ns/op\nBenchmarkB 1 10 ns/op\n", "BenchmarkA 1 7 ns/op\nBenchmarkB 1 20 ns/op\n"},
+	}
+	for si, sc := range scenarios {
+		for _, third := range []bool{false, true} {
+			n++
+			var args []string
+			texts := []string{sc[0], sc[1]}
+			if third {
+				texts = append(texts, sc[1])
+			}
+			for f, text := range texts {
+				p := filepath.Join(dir, fmt.Sprintf("zero-%d-%v-%d.txt", si, third, f))
+				if err := os.WriteFile(p, []byte(strings.Repeat(text, 3)), 0666); err != nil {
+					panic(err)
+				}
+				args = append(args, fmt.Sprintf("F%d=%s", f, p))
+			}
+			var txt, csvOut, e1, e2 bytes.Buffer
+			if err := benchstat(&txt, &e1, args); err != nil {
+				bad("zero-centre scenario %d: text: %v", si, err)
+				continue
+			}
+			if err := benchstat(&csvOut, &e2, append([]string{"-format", "csv"}, args...)); err != nil {
+				bad("zero-centre scenario %d: csv: %v", si, err)
+				continue
+			}
+			r := csv.NewReader(strings.NewReader(csvOut.String()))
+			r.FieldsPerRecord = -1
+			recs, _ := r.ReadAll()
+			var csvRatios, txtRatios []string
+			for _, rec := range recs {
+				if len(rec) == 0 || rec[0] != "geomean" {
+					continue
+				}
+				for c := 1; c < len(rec); c++ {
+					if rec[c] == "" {
+						continue
+					}
+					isSummary := c == 1 || c >= 3 && (c-3)%4 == 0
+					isRatio := c >= 5 && (c-5)%4 == 0
+					if !isSummary && !isRatio {
+						bad("zero-centre scenario %d (%d files): CSV summary row %q has %q in field %d, which is neither a column's summary nor its 'vs base' field\n%s", si, len(texts), rec, rec[c], c, csvOut.String())
+					}
+					if isRatio {
+						csvRatios = append(csvRatios, rec[c])
+					}
+				}
+			}
+			for _, line := range strings.Split(txt.String(), "\n") {
+				f := strings.Fields(line)
+				if len(f) == 0 || f[0] != "geomean" {
+					continue
+				}
+				for _, tok := range f[1:] {
+					if strings.HasSuffix(tok, "%") || tok == "?" {
+						txtRatios = append(txtRatios, tok)
+					}
+				}
+			}
+			if fmt.Sprint(csvRatios) != fmt.Sprint(txtRatios) {
+				bad("zero-centre scenario %d (%d files): summary-row ratios: text %q, CSV %q\n%s\n%s", si, len(texts), txtRatios, csvRatios, txt.String(), csvOut.String())
+			}
+		}
+	}
+	return n
+}
+
 func verifPipeline(t *testing.T, tier string) {
 	n, fails := 0, 0
 	bad := func(f string, args ...any) {
@@ -692,7 +768,8 @@ func verifPipeline(t *testing.T, tier string) {
 			}
 		}
 	}
-	fmt.Printf("BOUNDED-RESULT {\"cases\": %d, \"failures\": %d, \"bound\": \"%d random input sets (1-3 labelled files, changing goos/note configuration, 6 benchmark names with /size and gomaxprocs, two units, 1-6 repetitions, distinct values) x %d flag settings\", \"exhaustive\": false}\n", n, fails, rounds, len(settings))
+	n += verifZeroGeomean(dir, bad)
+	fmt.Printf("BOUNDED-RESULT {\"cases\": %d, \"failures\": %d, \"bound\": \"8 inputs with zero centres (summary row without a geometric mean); %d random input sets (1-3 labelled files, changing goos/note configuration, 6 benchmark names with /size and gomaxprocs, two units, 1-6 repetitions, distinct values) x %d flag settings\", \"exhaustive\": false}\n", n, fails, rounds, len(settings))
 }
 
 // ---------------------------------------------------------------------------
@@ -1075,5 +1152,6 @@ func verifTextCSV(t *testing.T, tier string) {
 			}
 		}
 	}
-	fmt.Printf("BOUNDED-RESULT {\"cases\": %d, \"failures\": %d, \"bound\": \"%d random input sets x %d flag settings, text and CSV renderings compared; tables with 3..101 distinct footnotes\", \"exhaustive\": false}\n", n, fails, rounds, len(flagSets))
+	n += verifZeroGeomean(dir, bad)
+	fmt.Printf("BOUNDED-RESULT {\"cases\": %d, \"failures\": %d, \"bound\": \"%d random input sets x %d flag settings, text and CSV renderings compared; tables with 3..101 distinct footnotes; 8 inputs with zero centres (no geometric mean): placement of the summary-row ratios\", \"exhaustive\": false}\n", n, fails, rounds, len(flagSets))
 }
